@@ -44,8 +44,11 @@ let fvals dt (l : z list) = fints (List.map (pv dt) l)
              model = spec is a theorem), otherwise the name of the finding class *)
 type outcome = { model : string; spec : string; cls : string }
 
-let handlers : (string, string array -> outcome) Hashtbl.t = Hashtbl.create 64
-let register k f = Hashtbl.replace handlers k f
+(* handlers get the case fields and the implementation's observation (used only where the
+   property leaves a choice open, e.g. which length-one axes a slice drops) *)
+let handlers : (string, string array -> string -> outcome) Hashtbl.t = Hashtbl.create 64
+let register2 k f = Hashtbl.replace handlers k f
+let register k f = Hashtbl.replace handlers k (fun a _impl -> f a)
 
 let res_str (f : 'a -> string) (r : 'a res) : string =
   match r with Ok a -> "ok:" ^ f a | Err -> "err" | Panic -> "panic"
